@@ -89,7 +89,7 @@ def required_counters(tier):
          'judged:readback-format-given': 200 * k, 'judged:readback-extension-inferred': 700 * k,
          'judged:readback-content-inferred': 500 * k, 'judged:readback-gzip-copy': 1000 * k,
          'judged:write-extension-identified': 100 * k, 'judged:unknown-format': 80, 'judged:no-stray-files': 200 * k,
-         'judged:overwritten-completely': 80 * k, 'skipped-element-success': 100 * k, 'overwrite-through-symlink': 20 * k}
+         'judged:overwritten-completely': 80 * k, 'skipped-element-success': 100 * k, 'overwrite-through-symlink': 20 * k, 'destination-spelled-home-relative': 20 * k}
     for f in FORMATS:
         d[f'success:{f}'] = 25 * k
         d[f'raised-on-injection:{f}'] = (100 if f != 'ds9' else 40) * k      # ds9 now skips (with a warning) what it cannot express; only bad options raise
@@ -566,7 +566,19 @@ def run_cell(case, obs, casedir):
         import pathlib
         wpath = pathlib.Path(path)          # the same destination named by a path object
         obs.count('destination-given-as-pathlib-Path')
-    exc, events, nwarn = do_write(api, regs, wpath, fmtarg, ow, kw)
+    home0 = os.environ.get('HOME')
+    if fmt == 'fits' and fmtarg is not None and not unknown and case['cell'] % 3 == 1 and dest in ('file', 'absent'):
+        # the same destination spelled home-relative (astropy's FITS writer expands a leading '~'; HOME is this cell's directory)
+        os.environ['HOME'] = casedir
+        wpath = '~/' + os.path.basename(path)
+        obs.count('destination-spelled-home-relative')
+    try:
+        exc, events, nwarn = do_write(api, regs, wpath, fmtarg, ow, kw)
+    finally:
+        if home0 is None:
+            os.environ.pop('HOME', None)
+        else:
+            os.environ['HOME'] = home0
     after = snap(path)
     after_t = snap(target)
     listing2 = sorted(os.listdir(casedir))
